@@ -138,7 +138,7 @@ def generate(seed: int, tier: str) -> Dict[str, Any]:
             elif kind == "state" and two_states:
                 ops.append({"op": "switch_state", "kind": "state"})
             continue
-        now += ro.choice([0, 1, 1000, 86_400_000])
+        now += ro.choice([0, 1, 1000, 3_600_000, 6 * 3_600_000, 12 * 3_600_000, 86_400_000])
         ops.append({"op": "turn", "agent": ro.choice(agents), "text": ro.choice(texts), "turn_id": turn, "now_ms": now})
         turn += 1
     return {"world": world, "world_b": world_b, "cfg": raw, "ops": ops}
